@@ -7,6 +7,7 @@ import (
 	"fmt"
 	"os"
 	"path/filepath"
+	"runtime"
 	"runtime/debug"
 	"sort"
 	"strconv"
@@ -44,7 +45,14 @@ type Env struct {
 	nontriv  bool
 	// inconclusive, when set, says why this run decides nothing (never a violation)
 	inconclusive string
+	// freeRunning marks a run in which goroutines of the system under test overlap under the real scheduler on
+	// purpose (e.g. a stalled maintenance loop): its history is not a pure function of the tape, so it is left
+	// out of the determinism self-test; an oracle failure there still has to reproduce in a fresh process.
+	freeRunning bool
 }
+
+// FreeRunning marks the run as real-scheduler dependent (see Env.freeRunning).
+func (e *Env) FreeRunning() { e.mu.Lock(); e.freeRunning = true; e.mu.Unlock() }
 
 // Event appends one line to the canonical history. Everything written here must be a function of
 // the tape alone (no goroutine ids, no wall-clock, no map order).
@@ -158,6 +166,7 @@ type runRec struct {
 	ShrinkRuns int            `json:"shrink_runs,omitempty"`
 	Nontrivial bool           `json:"nontrivial,omitempty"`
 	Inconcl    string         `json:"inconclusive,omitempty"`
+	FreeRun    bool           `json:"free_running,omitempty"`
 }
 
 // ReplayFile is the on-disk form of a (minimised) failing run.
@@ -244,6 +253,11 @@ func startWatchdog(out *os.File) {
 			if !dl.IsZero() && time.Now().After(dl) {
 				emit(out, &runRec{T: "hang", Scenario: what})
 				fmt.Fprintf(os.Stderr, "WATCHDOG: run did not finish: %s\n", what)
+				if os.Getenv("VERIF_WATCHDOG_STACKS") != "" {
+					buf := make([]byte, 1<<22)
+					buf = buf[:runtime.Stack(buf, true)]
+					os.Stderr.Write(buf)
+				}
 				os.Exit(3)
 			}
 		}
@@ -408,7 +422,7 @@ func Main(t *testing.T, property string, scs []Scenario) {
 			rec := &runRec{
 				T: "run", Seed: seed, Scenario: sc.Name, Digest: hex.EncodeToString(e.h[:8]), Probes: e.probes,
 				SimNs: e.simNanos, Steps: e.steps, WallUs: time.Since(t0).Microseconds(), TapeLen: tp.Pos(),
-				Nontrivial: e.nontriv, Viol: e.viol, Inconcl: e.inconclusive,
+				Nontrivial: e.nontriv, Viol: e.viol, Inconcl: e.inconclusive, FreeRun: e.freeRunning,
 			}
 			if samples < 3 && e.sample != nil {
 				rec.Sample = e.sample
